@@ -347,6 +347,9 @@ C06 += [
     _xi("xml_import_distances.n%d" % n, entry="hp_xml_import_distances", defines={"XNBOBJS": n}, note="[nbobjs attribute = %d] " % n + "hwloc__xml_import_distances (distances2 / distances2hetero) against the CONTRACT of the XML state API: any sequence of <= 5 attributes (names from the pool of every name the function knows plus an unknown one, values arbitrary strings <= 2 chars), <= 3 children (info / indexes / u64values / unknown, <= 2 attributes each) with arbitrary contents <= 3 chars, any numbers, any topology flags and XML version: memory safe (stores into the arrays sized from nbobjs stay inside), returns 0/-1, hands at most one complete matrix to the core")
     for n in (2,)
 ] + [
+    Job(name="xml_import_cpukind", driver="xml.drv.c", entry="hp_xml_import_cpukind", mode="plain", unwind=20, min_post=0, cost=60, family="xmlimport", label="bounded", timeout=1500, objbits=12,
+        unwindset="hwloc__xml_import_cpukind.0:6,hwloc__xml_import_cpukind.1:4,hwloc___xml_import_info.0:3,verif_exact_string_of.0:4",
+        note="hwloc__xml_import_cpukind against the contract of the XML state API: any <= 5 attributes (cpuset / forced_efficiency / unknown), <= 3 children (info / unknown), any topology flags: memory safe, 0/-1, the cpuset it allocates is released exactly once on every path (freed or handed to hwloc_internal_cpukinds_register, ownership model in the driver), at most one registration"),
     Job(name="xml_import_userdata", driver="xml.drv.c", entry="hp_xml_import_userdata", mode="plain", unwind=11, min_post=0, cost=60, family="xmlimport", label="bounded", timeout=1500, objbits=12,
         unwindset="hwloc__xml_import_userdata.0:6,verif_exact_string_of.0:5,sprintf.0:13", defines={"XB": 4, "XNUM_MAX": "0xffffffffUL"},
         note="hwloc__xml_import_userdata against the contract of the XML state API (get_content delivers exactly the expected length, as both backends do): any <= 5 attributes (length / encoding / name / unknown, arbitrary values or 'base64'), contents <= 4 bytes, announced lengths < 2^32 (beyond 3*2^62 BASE64_ENCODED_LENGTH wraps: observed, not decided), callback present or not, decoded or not, hwloc_decode_from_base64 as its contract: memory safe, the callback receives `length` readable bytes, close_content is only called after a successful get_content"),
